@@ -7,7 +7,7 @@ Harness-facing API (works in symbolic and in concrete/replay mode):
 from . import core, strs, utf8ref
 from .core import (And, If, Iff, Implies, Not, Or, SymBool, SymBytes, SymInt, SymReal, SymTable,  # noqa
                    Control, PathAbort, Stop, Unsupported, Unwound, Violation, ConcreteFailure,
-                   ReplayMismatch, assume, choice, concrete_value, is_symbolic, mk_bytes, note,
+                   ReplayMismatch, UnitMissing, unit, assume, choice, concrete_value, is_symbolic, mk_bytes, note,
                    require, sym_bool, sym_bytes, sym_int, sym_real, tick, unsupported)
 from .strs import SymStr, SymText, contains, mk_str, sym_str, text_of  # noqa
 
